@@ -132,6 +132,12 @@ EDITS = {
         ("ut05", "crates/lib/mimium-lang/src/ast/program.rs", "            let base_mangled = if path.segments.is_empty() {", "            let base_mangled = if !path.segments.is_empty() {", "verus", "use_tables"),
         ("ut06", "crates/lib/mimium-lang/src/ast/program.rs", "                register_alias(module_info, visibility, module_prefix, *name, mangled);", "                register_alias(module_info, &Visibility::Public, module_prefix, *name, mangled);", "verus", "use_tables"),
         ("ut07", "crates/lib/mimium-lang/src/ast/program.rs", "        name\n    } else {\n        let path_str = prefix", "        name\n    } else if prefix.len() > 1 {\n        name\n    } else {\n        let path_str = prefix", "verus", "use_tables"),
+        ("ut08", "crates/lib/mimium-lang/src/ast/program.rs", "                module_info.type_aliases.insert(mangled_name, target_type);\n                // Track visibility for all type aliases (both module members and top-level)\n                module_info\n                    .visibility_map\n                    .insert(mangled_name, visibility == Visibility::Public);",
+         "                module_info.type_aliases.insert(mangled_name, target_type);\n                // Track visibility for all type aliases (both module members and top-level)\n                module_info\n                    .visibility_map\n                    .insert(mangled_name, true);", "verus", "use_tables"),
+        ("ut09", "crates/lib/mimium-lang/src/ast/program.rs", "                // Use mangled name if inside a module\n                let mangled_name = mangle_qualified_name(module_prefix, name);\n                // Track visibility for all functions (both module members and top-level)\n                module_info\n                    .visibility_map\n                    .insert(mangled_name, visibility == Visibility::Public);",
+         "                // Use mangled name if inside a module\n                let mangled_name = mangle_qualified_name(module_prefix, name);\n                // Track visibility for all functions (both module members and top-level)\n                module_info\n                    .visibility_map\n                    .insert(name, visibility == Visibility::Public);", "verus", "use_tables"),
+        ("ut10", "crates/lib/mimium-lang/src/ast/program.rs", "                // Track visibility for type declarations\n                module_info\n                    .visibility_map\n                    .insert(mangled_name, visibility == Visibility::Public);", "                // Track visibility for type declarations\n                module_info\n                    .visibility_map\n                    .entry(mangled_name).or_insert(visibility == Visibility::Public);", "verus", "use_tables"),
+        ("ut11", "crates/lib/mimium-lang/src/ast/program.rs", "                        TypedId::new(mangled_name, fnty),", "                        TypedId::new(name, fnty),", "verus", "use_tables"),
     ],
     "C20": [
         ("ff01", RT + "ffi_serde.rs", "            Value::Store(_) => {\n                Err(\"Mutable stores cannot be serialized across FFI boundaries\".to_string())\n            }", "            Value::Store(_) => Ok(FfiValue::Unit),", "verus", "ffi_serde"),
